@@ -88,7 +88,10 @@ def oracle_ext(case, obs):
     """validator at every close of both workspaces; orphans are the recorded defect only when the node belongs to an
     entity that an earlier remove_children detached (or to a descendant: those carry no parent link from a live node)"""
     detached = set()
-    for st in obs["steps"]:
+    reused = set()   # identifiers detached through a parent and still on file when a later cross-workspace copy re-used them
+    for op, st in zip(case["ops"], obs["steps"]):
+        if op["op"] == "copy" and op.get("other_ws") and st["outcome"] == "done":
+            reused |= detached
         detached.update(st["info"].get("detached", []) or [])
     fails, seen = [], set()
     for per_ws in obs["validations"] + [obs["final_validation"]]:
@@ -97,8 +100,14 @@ def oracle_ext(case, obs):
             explained = bool(orphan_nodes & detached) or not orphan_nodes
             for f in fl:
                 k = f["key"]
+                node_uid = f["node"].split("/")[1].strip("{}") if "node" in f else None
                 if k.startswith("orphan-") and detached and explained:
                     key = "orphan-after-remove-via-parent"
+                elif node_uid in reused and k in ("type-not-shared", "type-link-missing", "child-link-dangling", "parent-count", "child-link-not-hard-link"):
+                    # recorded defect (stale-node-reused, copy route): a second cross-workspace copy keeps the identifiers of
+                    # entities detached earlier (free in the registry), write_entity returns their stale flat nodes untouched,
+                    # whose Type link / child links point at nodes swept meanwhile (thorough run 5)
+                    key = "stale-node-reused"
                 elif k == "property-group-foreign-data":
                     key = "pg-lists-removed-data"
                 else:
